@@ -67,8 +67,9 @@ def run(run):
                     stats["relayout_relation:" + rel] += 1
                     if rel != "true":
                         outside.append(dict(tight=tight, layout=base_text))
-                    for j in range(nlay):
-                        text = GQ.layout(q.lexemes, q.kinds, rng, aggressive=True)
+                    for j in range(nlay + 1):
+                        # (the last one: one token per line, flush left)
+                        text = GQ.layout(q.lexemes, q.kinds, rng, aggressive=True) if j < nlay else GQ.column_layout(q.lexemes, q.kinds)
                         lex_pair(text)
                         rel = d.call("relayout", tight, text)[0]
                         stats["relayout_relation:" + rel] += 1
